@@ -979,7 +979,10 @@ pub fn matrix_behaviour(r: &mut Rng, t: &mut Trace) {
         let p0 = w.pairs[0].addr.clone();
         let lp0 = w.pairs[0].lp.clone();
         let (a0, a1) = pair_infos(&w, 0);
-        let roles: Vec<String> = vec!["owner".into(), "newowner".into(), "mallory".into(), w.factory.clone(), w.router.clone(), p0.clone(), lp0.clone(), w.tokens[0].clone(), w.tokens[1].clone(), w.pairs[1].addr.clone()];
+        // (the last two callers are senders whose address the Api refuses to canonicalise - MockApi: under 3 or over 90
+        //  characters; they hold nothing and need nothing: an owner check that fails OPEN on such a sender admits them)
+        let roles: Vec<String> = vec!["owner".into(), "newowner".into(), "mallory".into(), w.factory.clone(), w.router.clone(), p0.clone(), lp0.clone(), w.tokens[0].clone(), w.tokens[1].clone(), w.pairs[1].addr.clone(),
+                                      "zz".into(), "q".repeat(120)];
         for role in roles.iter() {
             let ops = vec![
                 json!({"op": "fac_update_config", "caller": role, "new_owner": nul(), "token_code_id": nul(), "pair_code_id": nul()}),
